@@ -135,10 +135,12 @@ func (f *DefaultFanController) Run(ctx context.Context) error {
 		}
 		f.originalPwmEnabled = fans.ControlMode(pwmEnabled)
 	}
+	verifTrace(fan.GetId(), "Captured", f.originalPwmValue, int(f.originalPwmEnabled))
 
 	ui.Info("Gathering sensor data for %s...", fan.GetId())
 	// wait a bit to gather monitoring data
 	time.Sleep(2*time.Second + configuration.CurrentConfig.TempSensorPollingRate*2)
+	verifTrace(fan.GetId(), "WaitEnd")
 
 	// check if we have data for this fan in persistence,
 	// if not we need to run the initialization sequence
@@ -179,6 +181,7 @@ func (f *DefaultFanController) Run(ctx context.Context) error {
 	f.updateDistinctPwmValues()
 
 	ui.Debug("PWM map of fan '%s': %v", fan.GetId(), f.pwmMap)
+	verifTrace(fan.GetId(), "Attached", fan.GetMinPwm(), fan.GetStartPwm(), fan.GetMaxPwm())
 	ui.Info("PWM settings of fan '%s': Min %d, Start %d, Max %d", fan.GetId(), fan.GetMinPwm(), fan.GetStartPwm(), fan.GetMaxPwm())
 	ui.Info("Starting controller loop for fan '%s'", fan.GetId())
 
@@ -213,6 +216,7 @@ func (f *DefaultFanController) Run(ctx context.Context) error {
 	{
 		g.Add(func() error {
 			time.Sleep(1 * time.Second)
+			verifTrace(fan.GetId(), "LoopStarted")
 			tick := time.NewTicker(f.updateRate)
 			for {
 				select {
@@ -242,10 +246,12 @@ func (f *DefaultFanController) Run(ctx context.Context) error {
 
 func (f *DefaultFanController) UpdateFanSpeed() error {
 	fan := f.fan
+	verifTrace(fan.GetId(), "CycleBegin")
 
 	// calculate the direct optimal target speed
 	target, err := f.calculateTargetPwm()
 	if err != nil {
+		verifTrace(fan.GetId(), "CycleEnd", target, 1, 0)
 		return err
 	}
 
@@ -256,12 +262,15 @@ func (f *DefaultFanController) UpdateFanSpeed() error {
 		//  in case these errors don't resolve after a while
 		ui.Error("Error setting %s: %v", fan.GetId(), err)
 	}
+	verifTrace(fan.GetId(), "CycleEnd", target, 0, verifErr(err))
 
 	return nil
 }
 
 func (f *DefaultFanController) RunInitializationSequence() (err error) {
 	fan := f.fan
+	verifTrace(fan.GetId(), "AnalysisBegin")
+	defer verifTrace(fan.GetId(), "AnalysisEnd")
 
 	err1 := f.computePwmMap()
 	if err1 != nil {
@@ -279,6 +288,7 @@ func (f *DefaultFanController) RunInitializationSequence() (err error) {
 		return nil
 	}
 	ui.Info("Measuring RPM curve...")
+	verifTrace(fan.GetId(), "MeasureBegin")
 
 	err = trySetManualPwm(fan)
 	if err != nil {
@@ -345,6 +355,8 @@ func (f *DefaultFanController) RunInitializationSequence() (err error) {
 
 // read the current value of a fan RPM sensor and append it to the moving window
 func (f *DefaultFanController) measureRpm(fan fans.Fan) {
+	verifTrace(fan.GetId(), "RpmBegin")
+	defer verifTrace(fan.GetId(), "RpmEnd")
 	pwm, err := f.getPwm()
 	if err != nil {
 		ui.Warning("Error reading PWM value of fan %s: %v", fan.GetId(), err)
@@ -388,6 +400,8 @@ func trySetManualPwm(fan fans.Fan) error {
 
 func (f *DefaultFanController) restorePwmEnabled() {
 	ui.Info("Trying to restore fan settings for %s...", f.fan.GetId())
+	verifTrace(f.fan.GetId(), "RestoreBegin", f.originalPwmValue, int(f.originalPwmEnabled))
+	defer verifTrace(f.fan.GetId(), "RestoreEnd")
 
 	err := f.fan.SetPwm(f.originalPwmValue)
 	if err != nil {
@@ -630,6 +644,8 @@ func (f *DefaultFanController) computePwmMapAutomatically() {
 	_ = trySetManualPwm(fan)
 
 	// check every pwm value
+	verifTrace(fan.GetId(), "SweepBegin")
+	defer verifTrace(fan.GetId(), "SweepEnd")
 	pwmMap := map[int]int{}
 	for i := fans.MaxPwmValue; i >= fans.MinPwmValue; i-- {
 		_ = fan.SetPwm(i)
